@@ -106,9 +106,9 @@ def handle(cmd, argv, stdin, st, fault):
             if m:
                 deps = m.group(1).split(":")
         m = re.search(r"#SBATCH --job-name=(\S+)", stdin)
-        jid = new_job(st, "afterok", deps, m.group(1) if m else "?", stdin, argv)
-        if fault == "garbage":
+        if fault == "garbage":      # unparsable reply, job NOT accepted
             return "Submitted batch job\n", "", 0
+        jid = new_job(st, "afterok", deps, m.group(1) if m else "?", stdin, argv)
         return jid + (";cluster1" if st.get("slurm_cluster_suffix") else "") + "\n", "", 0
     if cmd == "squeue":
         lines = []
@@ -158,9 +158,9 @@ def handle(cmd, argv, stdin, st, fault):
             if a == "-hold_jid":
                 deps = argv[i + 1].split(",")
         m = re.search(r"#\$ -N (\S+)", stdin)
-        jid = new_job(st, "hold", deps, m.group(1) if m else "?", stdin, argv)
         if fault == "garbage":
             return "Your job has been submitted\n", "", 0
+        jid = new_job(st, "hold", deps, m.group(1) if m else "?", stdin, argv)
         return jid + "\n", "", 0
     if cmd == "qstat":
         rows = []
@@ -177,9 +177,9 @@ def handle(cmd, argv, stdin, st, fault):
             if a == "-w":
                 deps = re.findall(r"done\(([^)]*)\)", argv[i + 1])
         m = re.search(r"#BSUB -J (\S+)", stdin)
-        jid = new_job(st, "done", deps, m.group(1) if m else "?", stdin, argv)
         if fault == "garbage":
             return "Job submitted\n", "", 0
+        jid = new_job(st, "done", deps, m.group(1) if m else "?", stdin, argv)
         return "Job <%s> is submitted to default queue <normal>.\n" % jid, "", 0
     if cmd == "bjobs":
         jid = argv[-1]
